@@ -97,20 +97,63 @@ Qed.
 
 (* ------------------------------------------------------------------ generate_row *)
 
-Lemma to_i64_small n : (n < 9223372036854775808)%N -> to_i64 n = Z.of_N n.
+Lemma wrap_signed64_id z : i64 z -> wrap_signed 64 z = z.
 Proof.
-  intros H. unfold to_i64, to_signed, wrapN. rewrite pow64.
+  intros H. unfold i64 in H. unfold wrap_signed, to_signed, of_signed, wrapN. rewrite pow64.
   change (2 ^ (64 - 1))%N with 9223372036854775808%N.
-  rewrite N.mod_small by lia. destruct (N.ltb_spec n 9223372036854775808); [reflexivity | lia].
+  change (Z.of_N 18446744073709551616) with 18446744073709551616%Z.
+  assert (Hm : (0 <= z mod 18446744073709551616 < 18446744073709551616)%Z) by (apply Z.mod_pos_bound; lia).
+  rewrite N.mod_small by lia.
+  destruct (N.ltb_spec (Z.to_N (z mod 18446744073709551616)) 9223372036854775808); lia.
 Qed.
 
-Lemma chk_s64_ok dbg z : i64 z -> chk_s 64 dbg z = Ok z.
+(* the chunking loop: enough fuel for f+1 multiples of the i64 range; the chunks advance the line by
+   delta - rest and the rest fits an i64 *)
+Lemma line_chunks_S f delta :
+  line_chunks (S f) delta =
+  if (9223372036854775807 <? delta)%Z then
+    let* (l, d) := line_chunks f (delta - 9223372036854775807)%Z in Ok (IAdvanceLine 9223372036854775807 :: l, d)
+  else if (delta <? -9223372036854775808)%Z then
+    let* (l, d) := line_chunks f (delta - -9223372036854775808)%Z in Ok (IAdvanceLine (-9223372036854775808) :: l, d)
+  else Ok ([], delta).
+Proof. reflexivity. Qed.
+
+Lemma line_chunks_gen f : forall delta,
+  (-9223372036854775808 * (Z.of_nat f + 1) <= delta <= 9223372036854775807 * (Z.of_nat f + 1))%Z ->
+  exists chunks d,
+    line_chunks (S f) delta = Ok (chunks, d) /\ i64 d /\ Forall special_ok chunks /\
+    forall ver p r, run p (map (denote ver) chunks) r = ([], line_adv (delta - d) r).
 Proof.
-  intros H. unfold i64 in H. unfold chk_s.
-  assert (E : in_signed 64 z = true).
-  { unfold in_signed. change (Z.of_N (2 ^ (64 - 1))) with 9223372036854775808%Z.
-    apply andb_true_intro; split; [apply Z.leb_le | apply Z.ltb_lt]; lia. }
-  now rewrite E.
+  induction f as [|f IH]; intros delta Hd; rewrite line_chunks_S.
+  - destruct (Z.ltb_spec 9223372036854775807 delta) as [Hc|_]; [lia|].
+    destruct (Z.ltb_spec delta (-9223372036854775808)) as [Hc|_]; [lia|].
+    exists [], delta. repeat split; try (unfold i64; lia); auto.
+    intros ver p r. cbn [map run]. rewrite Z.sub_diag. now rewrite line_adv_0.
+  - destruct (Z.ltb_spec 9223372036854775807 delta) as [Hgt|Hle].
+    + destruct (IH (delta - 9223372036854775807)%Z ltac:(lia)) as (chunks & d & E & Hi & F & R).
+      rewrite E. cbn [bind].
+      exists (IAdvanceLine 9223372036854775807 :: chunks), d. split; [reflexivity|]. split; [exact Hi|].
+      split; [constructor; [exact I|exact F]|].
+      intros ver p r. cbn [map denote run step exec]. rewrite R. cbn [app].
+      rewrite line_adv_line_adv. f_equal. f_equal. lia.
+    + destruct (Z.ltb_spec delta (-9223372036854775808)) as [Hlt|Hge].
+      * destruct (IH (delta - -9223372036854775808)%Z ltac:(lia)) as (chunks & d & E & Hi & F & R).
+        rewrite E. cbn [bind].
+        exists (IAdvanceLine (-9223372036854775808) :: chunks), d. split; [reflexivity|]. split; [exact Hi|].
+        split; [constructor; [exact I|exact F]|].
+        intros ver p r. cbn [map denote run step exec]. rewrite R. cbn [app].
+        rewrite line_adv_line_adv. f_equal. f_equal. lia.
+      * exists [], delta. repeat split; try (unfold i64; lia); auto.
+        intros ver p r. cbn [map run]. rewrite Z.sub_diag. now rewrite line_adv_0.
+Qed.
+
+(* fuel 3 suffices for the difference of any two u64 line numbers *)
+Lemma line_chunks_ok a b : (a < 18446744073709551616)%N -> (b < 18446744073709551616)%N ->
+  exists chunks d,
+    line_chunks 3 (Z.of_N a - Z.of_N b) = Ok (chunks, d) /\ i64 d /\ Forall special_ok chunks /\
+    forall ver p r, run p (map (denote ver) chunks) r = ([], line_adv (Z.of_N a - Z.of_N b - d) r).
+Proof.
+  intros Ha Hb. apply (line_chunks_gen 2). cbn. lia.
 Qed.
 
 (* the row the reader must produce for a writer row: address advanced by the offset difference,
@@ -121,14 +164,14 @@ Definition row_regs (ver : N) (r : regs) (pao : N) (row : wrow) : regs :=
          (w_basic_block row) false (w_prologue_end row) (w_epilogue_begin row)
          (Z.of_N (w_isa row)) (Z.of_N (w_discriminator row)).
 
-(* what a caller may ask of generate_row, relative to the previous row of the sequence *)
+(* what a caller may ask of generate_row, relative to the previous row of the sequence: the step
+   conditions, u64 line numbers (any), and an operation advance that fits a u64 (the remaining known
+   finding: `address_advance * max_ops + op_index` is unchecked) *)
 Definition row_ok (l : lenc) (prev row : wrow) : Prop :=
   step_ok l (w_address_offset prev) (w_op_index prev) (w_address_offset row) (w_op_index row) /\
-  (w_line prev < 9223372036854775808)%N /\ (w_line row < 9223372036854775808)%N /\
+  (w_line prev < 18446744073709551616)%N /\ (w_line row < 18446744073709551616)%N /\
   ((w_address_offset row - w_address_offset prev) / le_min_len l * le_max_ops l + w_op_index row
-     < 18446744073709551616)%N /\
-  (op_advance_value l (w_address_offset prev) (w_op_index prev) (w_address_offset row) (w_op_index row)
-     * le_line_range l + le_line_range l + 12 < 18446744073709551616)%N.
+     < 18446744073709551616)%N.
 
 Lemma generate_row_correct dbg p row ver r :
   enc_ok (p_lenc p) ->
@@ -144,46 +187,42 @@ Lemma generate_row_correct dbg p row ver r :
     synced ver (clear_row_flags row)
            (after_row (params_of (p_lenc p)) (row_regs ver r (w_address_offset (p_prev p)) row)).
 Proof.
-  intros Hok Hsync (Hstep & Hpl & Hrl & Hq & Hov).
+  intros Hok Hsync (Hstep & Hpl & Hrl & Hq).
   set (l := p_lenc p) in *. set (prev := p_prev p) in *.
   unfold generate_row. cbn [p_row p_prev p_lenc set_row clear_row_flags w_line w_address_offset w_op_index].
   fold l. fold prev.
-  rewrite !to_i64_small by assumption.
-  rewrite chk_s64_ok by (unfold i64; lia). cbn [bind].
+  destruct (line_chunks_ok (w_line row) (w_line prev) Hrl Hpl) as (chunks & d & Ech & Hd & Fch & Rch).
+  rewrite Ech. cbn [bind]. rewrite (wrap_signed64_id d Hd).
   (* op_advance only reads address_offset and op_index *)
   assert (Eop : op_advance dbg l (clear_row_flags row) prev = op_advance dbg l row prev) by reflexivity.
   rewrite Eop. clear Eop.
   rewrite (op_advance_ok dbg l row prev Hok Hstep Hq). cbn [bind].
   set (oadv := op_advance_value l (w_address_offset prev) (w_op_index prev) (w_address_offset row) (w_op_index row)) in *.
-  destruct (advance_correct dbg l (Z.of_N (w_line row) - Z.of_N (w_line prev)) oadv Hok
-              ltac:(unfold i64; lia) Hov) as (adv & Eadv & Fadv & Radv).
+  destruct (advance_correct dbg l d oadv Hok Hd) as (adv & Eadv & Fadv & Radv).
   rewrite Eadv. cbn [bind].
-  exists (field_insns row prev ++ adv). split; [reflexivity|].
+  exists (field_insns row prev ++ chunks ++ adv). split; [reflexivity|].
   assert (Hmaxz : (0 < lp_max_ops (params_of l))%Z) by (destruct Hok as (_ & _ & _ & _ & ?); cbn; lia).
   pose proof Hsync as Hsync'. destruct Hsync' as (Sop & Sfile & Sline & Scol & Sstmt & Sisa & Sdisc & Sbb & Spe & Seb & Ses).
   destruct Hstep as (Hle & Hpm & Hm & Hpo & Ho & Hmono).
   split.
-  { apply Forall_app; split; [|exact Fadv].
+  { apply Forall_app; split; [|apply Forall_app; split; [exact Fch|exact Fadv]].
     unfold field_insns. repeat (apply Forall_app; split);
       match goal with |- Forall _ (if ?c then _ else _) => destruct c; repeat constructor end. }
   assert (Erow : op_adv (params_of l) (Z.of_N oadv)
-                   (line_adv (Z.of_N (w_line row) - Z.of_N (w_line prev)) (fields_set ver row r))
+                   (line_adv d (line_adv (Z.of_N (w_line row) - Z.of_N (w_line prev) - d) (fields_set ver row r)))
                  = row_regs ver r (w_address_offset prev) row).
-  { unfold oadv. rewrite (op_advance_vliw l _ _ _ _ _ Hok
+  { rewrite line_adv_line_adv. unfold oadv. rewrite (op_advance_vliw l _ _ _ _ _ Hok
       (conj Hle (conj Hpm (conj Hm (conj Hpo (conj Ho Hmono)))))) by (cbn; exact Sop).
     unfold row_regs. cbn. f_equal. lia. }
   split.
   - rewrite map_app, run_app. rewrite (row_fields ver _ row prev r Hsync). cbv beta iota.
+    rewrite map_app, run_app. rewrite Rch. cbv beta iota.
     rewrite Radv by (unfold regs_ok; cbn; rewrite Sop; lia).
     rewrite Erow. reflexivity.
   - unfold after_row, row_regs. cbn. unfold synced. cbn. repeat split; reflexivity.
 Qed.
 
 (* ------------------------------------------------------------------ end_sequence, seq_reset, set_address *)
-
-Definition with_op_index (r : wrow) (opi : N) : wrow :=
-  mkWrow (w_address_offset r) opi (w_file r) (w_line r) (w_column r) (w_discriminator r)
-         (w_is_statement r) (w_basic_block r) (w_prologue_end r) (w_epilogue_begin r) (w_isa r).
 
 (* the end_sequence row: the registers as they are, at the end address, flagged *)
 Definition end_regs (r : regs) (pao off opi : N) : regs :=
@@ -245,7 +284,15 @@ Proof.
   - rewrite Eadv. unfold after_row, end_regs. cbn. reflexivity.
 Qed.
 
+(* set_address: the writer forgets the op_index exactly as the reader does (fix 64c2c71) *)
 Lemma set_address_synced ver prev r a :
+  synced ver prev r -> synced ver (with_op_index prev 0) (LineAdvSpec.set_address a r).
+Proof.
+  intros (Sop & Srest). unfold synced, LineAdvSpec.set_address, with_op_index. cbn.
+  split; [reflexivity|exact Srest].
+Qed.
+
+Lemma set_address_synced0 ver prev r a :
   synced ver prev r -> w_op_index prev = 0%N -> synced ver prev (LineAdvSpec.set_address a r).
 Proof.
   intros (Sop & Srest) H0. unfold synced, LineAdvSpec.set_address. cbn. rewrite H0. split; [reflexivity|exact Srest].
@@ -300,7 +347,7 @@ Fixpoint script_ok (e : enc) (l : lenc) (prev : wrow) (in_seq : bool) (ops : lis
   match ops with
   | [] => True
   | RBegin a :: r => in_seq = false /\ w_op_index prev = 0%N /\ script_ok e l prev true r
-  | RSetAddr a :: r => w_op_index prev = 0%N /\ script_ok e l prev true r
+  | RSetAddr a :: r => script_ok e l (with_op_index prev 0) true r
   | RRow row :: r => row_ok l prev row /\ script_ok e l (clear_row_flags row) true r
   | REnd off opi :: r => end_ok l prev off opi /\ script_ok e l (wrow_initial e l) false r
   end.
@@ -326,7 +373,7 @@ Proof.
       destruct a as [a|]; cbn [option_map bind].
       * set (p1 := push_insns [ISetAddress (AConst a)] (set_in_seq true p)).
         destruct (IH p1 (LineAdvSpec.set_address (Z.of_N a) r) Hok Hver
-                    (set_address_synced _ _ _ _ Hsync Hop0) Hrest)
+                    (set_address_synced0 _ _ _ _ Hsync Hop0) Hrest)
           as (p' & new & Eap & Eins & Eenc & Elenc & Fnew & Rnew).
         exists p', (ISetAddress (AConst a) :: new). split; [exact Eap|].
         split; [rewrite Eins; cbn; now rewrite <- app_assoc|].
@@ -344,16 +391,16 @@ Proof.
         destruct (meaning (e_version (p_enc p)) (params_of (p_lenc p)) (r, w_address_offset (p_prev p)) ops)
           as [rows st]. reflexivity.
     + (* set_address *)
-      destruct Hscript as (Hop0 & Hrest).
       cbn [apply_rops apply_rop bind]. unfold LineWr.set_address.
-      set (p1 := push_insns [ISetAddress (AConst a)] (set_in_seq true p)).
+      set (p1 := set_prev (with_op_index (p_prev p) 0) (push_insns [ISetAddress (AConst a)] (set_in_seq true p))).
       destruct (IH p1 (LineAdvSpec.set_address (Z.of_N a) r) Hok Hver
-                  (set_address_synced _ _ _ _ Hsync Hop0) Hrest)
+                  (set_address_synced _ _ _ (Z.of_N a) Hsync) Hscript)
         as (p' & new & Eap & Eins & Eenc & Elenc & Fnew & Rnew).
       exists p', (ISetAddress (AConst a) :: new). split; [exact Eap|].
       split; [rewrite Eins; cbn; now rewrite <- app_assoc|].
       split; [exact Eenc|]. split; [exact Elenc|]. split; [constructor; [exact I|exact Fnew]|].
-      cbn [map denote run step exec meaning m_step fst snd]. cbn [p1 p_lenc p_enc p_prev push_insns set_in_seq] in Rnew.
+      cbn [map denote run step exec meaning m_step fst snd].
+      cbn [p1 p_lenc p_enc p_prev push_insns set_in_seq set_prev with_op_index w_address_offset] in Rnew.
       rewrite Rnew.
       destruct (meaning (e_version (p_enc p)) (params_of (p_lenc p))
                   (LineAdvSpec.set_address (Z.of_N a) r, w_address_offset (p_prev p)) ops) as [rows st].
@@ -494,7 +541,7 @@ Lemma run_op_set_address dbg st a :
    Ok (mkSstate p' (st_ls st) (st_ss st) (st_dids st) (st_fids st))).
 Proof. reflexivity. Qed.
 
-(* ------------------------------------------------------------------ refutations outside script_ok *)
+(* ------------------------------------------------------------------ examples *)
 
 Definition enc_v4 : enc := mkEnc false 4 8.
 Definition lenc_vliw : lenc := mkLenc 1 2 true (-5) 14.
@@ -510,40 +557,11 @@ Proof.
   unfold lp_new. rewrite H1, H2. reflexivity.
 Qed.
 
-(* set_address after a row in the middle of a VLIW instruction (op_index <> 0): the writer keeps
-   prev_row.op_index while DW_LNE_set_address resets the reader's op_index *)
-Definition ops_setaddr_vliw : list rop :=
-  [RBegin (Some 4096%N); RRow (prow 0 1 7); RSetAddr 8192; RRow (prow 1 0 8); REnd 2 0].
-
-Lemma set_address_vliw_refuted :
-  enc_ok lenc_vliw /\
-  exists p', apply_rops false (fresh lenc_vliw) ops_setaddr_vliw = Ok p' /\
-    rows_of (params_of lenc_vliw) (map (denote 4) (p_insns p')) <>
-    fst (meaning 4 (params_of lenc_vliw) (init_regs (params_of lenc_vliw), 0%N) ops_setaddr_vliw).
-Proof.
-  split; [unfold enc_ok, lenc_vliw; cbn; lia|].
-  eexists. split; [vm_compute; reflexivity|]. vm_compute. intros H. discriminate H.
-Qed.
-
-(* line numbers >= 2^63: `row.line as i64 - prev_row.line as i64` overflows in checked builds ... *)
-Lemma big_line_debug_panics :
-  generate_row true (set_row (prow 0 0 9223372036854775808) (fresh lenc_default)) = Panic.
-Proof. vm_compute. reflexivity. Qed.
-
-(* ... and in unchecked builds the advance is only right modulo 2^64 (gimli's reader saturates at 0) *)
-Definition ops_big_line : list rop :=
-  [RBegin (Some 4096%N); RRow (prow 0 0 20); RRow (prow 4 0 18446744073709551615); REnd 8 0].
-
-Lemma big_line_release_refuted :
-  exists p', apply_rops false (fresh lenc_default) ops_big_line = Ok p' /\
-    rows_of (params_of lenc_default) (map (denote 4) (p_insns p')) <>
-    fst (meaning 4 (params_of lenc_default) (init_regs (params_of lenc_default), 0%N) ops_big_line).
-Proof. eexists. split; [vm_compute; reflexivity|]. vm_compute. intros H. discriminate H. Qed.
-
-(* non-vacuity: a script that satisfies script_ok (two sequences, VLIW, mid-sequence set_address at op_index 0) *)
+(* non-vacuity: a script that satisfies script_ok: two sequences, VLIW, a mid-sequence set_address in the
+   middle of a VLIW instruction (op_index 1), line numbers 2^64-1 and back (line deltas beyond i64) *)
 Definition ops_example : list rop :=
-  [RBegin (Some 4096%N); RRow (prow 0 0 7); RRow (prow 3 1 9); RRow (prow 4 0 2); RSetAddr 8192;
-   RRow (prow 10 1 2); REnd 12 0; RSetAddr 100; RRow (prow 0 0 1); REnd 1 1].
+  [RBegin (Some 4096%N); RRow (prow 0 0 7); RRow (prow 3 1 18446744073709551615); RSetAddr 8192;
+   RRow (prow 4 0 2); RRow (prow 10 1 2); REnd 12 0; RSetAddr 100; RRow (prow 0 0 1); REnd 1 1].
 
 Lemma ops_example_ok : script_ok enc_v4 lenc_vliw (wrow_initial enc_v4 lenc_vliw) false ops_example.
 Proof.
